@@ -5,6 +5,7 @@ import os
 import time
 
 VERIF = os.path.dirname(os.path.dirname(os.path.abspath(__file__)))
+EVDIR = os.environ.get('VERIF_EVIDENCE_DIR') or os.path.join(VERIF, 'evidence')
 
 TRUSTED = {
     'T1': 'host atomicity: an invocation that returns Err or traps has no effect, including effects of nested calls',
@@ -81,7 +82,7 @@ class Report:
                 continue
             seen_kf.add(k['key'])
             lines.append('KNOWN-FINDING: property=%s %s [%s]' % (self.pid, k['what'], k['key']))
-        rdir = os.path.join(VERIF, 'evidence', 'replay')
+        rdir = os.path.join(EVDIR, 'replay')
         os.makedirs(rdir, exist_ok=True)
         for o in viol:
             h = hashlib.sha1(o['key'].encode()).hexdigest()[:10]
@@ -124,8 +125,8 @@ class Report:
             wall_s=round(time.time() - self.t0 + (info.get('wall_s') or 0), 2),
             violations=len(viol),
         )
-        os.makedirs(os.path.join(VERIF, 'evidence'), exist_ok=True)
-        with open(os.path.join(VERIF, 'evidence', '%s.json' % self.pid), 'w') as f:
+        os.makedirs(EVDIR, exist_ok=True)
+        with open(os.path.join(EVDIR, '%s.json' % self.pid), 'w') as f:
             json.dump(ev, f, indent=1, default=str)
         return lines, len(viol), ev
 
